@@ -456,6 +456,9 @@ pub fn run(ctx: &Ctx) -> i32 {
         let mut args: Vec<&str> = vec![];
         // spellings of the --path argument; when ./contracts exists the argument may also name exactly that directory
         let path_spelling: &str = if combo & 4 != 0 && rng.chance(1, 3) { rng.ps(&["./contracts", "contracts", "./contracts/"]) } else { rng.ps(&["pdir", "./pdir", "pdir/"]) };
+        // the directory that wins may not exist: the run then fails, it does not fall back to the next source
+        let missing_winner = rng.chance(1, 8);
+        let path_spelling: &str = if missing_winner && combo & 1 != 0 { rng.ps(&["./no-such-dir", "nowhere/at/all", "pdir2"]) } else { path_spelling };
         let path_is_contracts = path_spelling.contains("contracts");
         if combo & 1 != 0 {
             args.extend(["--path", path_spelling]);
@@ -486,6 +489,17 @@ pub fn run(ctx: &Ctx) -> i32 {
         };
         acc.eval();
         acc.cov(&format!("precedence-combo:path={},toml={},contracts={}", combo & 1, (combo >> 1) & 1, (combo >> 2) & 1));
+        if missing_winner && combo & 1 != 0 {
+            acc.cov("precedence:the-winning-directory-does-not-exist");
+            if out.code == Some(0) || out.report.is_some() {
+                acc.violation(
+                    "path-precedence:missing---path-directory-but-run-succeeds",
+                    json!({"argv": args, "toml_path": toml_path, "contracts_dir_exists": combo & 4 != 0, "exit_code": out.code, "report_written": out.report.is_some()}),
+                );
+            }
+            let _ = std::fs::remove_dir_all(&cwd);
+            return;
+        }
         let expected_file = if combo & 1 != 0 {
             Some(if path_is_contracts { "D1.sol" } else { "P1.sol" })
         } else if combo & 2 != 0 {
